@@ -1,7 +1,8 @@
 (* C08 non-vacuity: concrete values meeting the hypotheses of the theorems. *)
 From V Require Import Common.Base C08.SortPerm C08.Comparators C08.CmpTheory C08.ComparatorProofs
   C08.Dfs C08.Serializer gen.MapSitesGen C08.MapSites C08.Diagnostics C08.Scanner C08.ScannerProofs
-  C08.Consumers gen.SortKeysGen C08.CollectSort.
+  C08.Consumers gen.SortKeysGen C08.CollectSort C08.ScannerReach C08.SiteModels C08.ComposeHash C08.ComposeMetafile.
+From V Require C18.Pieces C18.Hash C18.Ingredients.
 From Coq Require Import Permutation Sorted.
 
 (* sorting refs that arrived in two different orders gives one result *)
@@ -108,3 +109,48 @@ Example ex_collect : collect_then_sort (isort str_ltb) [] (fun k : list Z => k) 
 Proof. vm_compute. reflexivity. Qed.
 Example ex_regular_count : length regular_collect_sort_sites = 21%nat. Proof. vm_compute. reflexivity. Qed.
 Example ex_key_inits_count : length stable_key_inits = 6%nat /\ length sorted_append_exprs = 26%nat. Proof. split; vm_compute; reflexivity. Qed.
+
+(* ---- round 2 ---- *)
+(* (a) reachability, a finite universe, a run that gets stuck only when told to receive an undiscovered file *)
+Definition ex_universe : list Z := [0; 10; 20; 1; 2].
+Example ex_universe_roots : forall r, In r ex_roots -> In r ex_universe.
+Proof. intros r [<-|[<-|[<-|[]]]]; cbn; auto. Qed.
+Example ex_universe_closed : forall f c, In f ex_universe -> In c (ex_imports f) -> In c ex_universe.
+Proof.
+  intros f c Hf Hc. unfold ex_universe in *. cbn [In] in Hf.
+  destruct Hf as [<-|[<-|[<-|[<-|[<-|[]]]]]]; cbn in Hc; cbn [In]; lia.
+Qed.
+Example ex_reach : reach ex_imports ex_roots 2.
+Proof. apply (reach_step _ _ 20 2); [apply reach_root; cbn; auto | cbn; auto]. Qed.
+Example ex_counts : match run_scan ex_imports (fst (scan_init ex_roots)) [0; 20] with
+                    | Some st => (length (sc_vis st) =? 4)%nat && (length (sc_pend st) =? 2)%nat | None => false end = true.
+Proof. vm_compute. reflexivity. Qed.
+
+(* (b) the shaped and irregular inventories are not empty *)
+Example ex_shaped_count : length shaped_fold_sites = 10%nat /\ length irregular_models = 5%nat /\ length unshaped_fold_sites = 20%nat.
+Proof. repeat split; vm_compute; reflexivity. Qed.
+
+(* (c) two chunks that differ (the index carried by a chunk-reference piece) but agree on every hash ingredient *)
+Definition hx_c1 : C18.Hash.chunk :=
+  C18.Hash.mkChunk true [C18.Hash.mkPart [102;105;108;101] [47;97] [97] 0 2] [([97], 3); ([46;106;115], 0)]
+    (Some [C18.Pieces.mkPiece [120] 0 2; C18.Pieces.mkPiece [121] 0 0]) [] [] [] [] [1%nat].
+Definition hx_c2 : C18.Hash.chunk :=
+  C18.Hash.mkChunk true [C18.Hash.mkPart [102;105;108;101] [47;97] [97] 0 2] [([97], 3); ([46;106;115], 0)]
+    (Some [C18.Pieces.mkPiece [120] 7 2; C18.Pieces.mkPiece [121] 0 0]) [] [] [] [] [1%nat].
+Definition hx_leaf : C18.Hash.chunk := C18.Hash.mkChunk false [] [([98], 3)] None [122] [] [] [] [].
+Example ex_lists_agree : lists_agree [] (fun _ => []) [hx_c1; hx_leaf] [hx_c2; hx_leaf].
+Proof. repeat constructor. Qed.
+Example ex_chunks_differ : hx_c1 <> hx_c2. Proof. discriminate. Qed.
+Example ex_names : names_of (fun b => b) [] (fun _ => []) [hx_c1; hx_leaf] <> None.
+Proof. vm_compute. discriminate. Qed.
+
+(* (d) the allocation of each example run can be read backwards, so per-index
+   descriptions that are descriptions of the file exist *)
+Example ex_inverse :
+  match run_scan ex_imports (fst (scan_init ex_roots)) ex_sched1 with
+  | Some st => forallb (fun f => file_of_index st (index_of_file st f) =? f) [0; 10; 20; 1; 2; 77; -5]
+  | None => false end = true.
+Proof. vm_compute. reflexivity. Qed.
+Example ex_keys_sorted : map (fun k : list Z => length k) (isort str_ltb [[98]; [97; 97]; [97]])
+                       = map (fun k : list Z => length k) (isort str_ltb [[97]; [98]; [97; 97]]).
+Proof. vm_compute. reflexivity. Qed.
